@@ -90,7 +90,9 @@ def build(name):
 
     def fresh():
         return Python_RSAKey(n, e, d, p, q)
-    return fresh(), fresh
+    # a generated key is used as the object generate() returned (populated
+    # after construction); the fresh twin is built from the numbers
+    return (k if src == "gen" else fresh()), fresh
 
 
 def getkey(name):
